@@ -42,6 +42,10 @@ pub type OpResult = Result<Value, String>;
 
 fn dispatch(op: &str, input: &mut Value) -> OpResult {
   let (ns, _) = op.split_once('.').unwrap_or((op, ""));
+  #[cfg(feature = "k_gen")]
+  if op == "naming.scopes" {
+    return k_graph::eval("graph.emit", input);
+  }
   match ns {
     #[cfg(feature = "k_naming")]
     "naming" => k_naming::eval(op, input),
